@@ -416,7 +416,7 @@ func c11L2(r *Run, rep *core.Report) {
 		}
 	}
 	rep.MinCount("C11.L2", "chain-walk advance steps", nAdv, 6)
-	rep.MinCount("C11.L2", "slot loops", nSlot, 8)
+	rep.MinCount("C11.L2", "slot loops", nSlot, 4)
 	rep.MinCount("C11.L2", "chain walks", nChain, 4)
 }
 
@@ -610,6 +610,8 @@ func tableFieldLoads(mm *core.MapModel, v ssa.Value, out map[ssa.Value]string, s
 		if a := mm.UniqueArg(x); a != nil {
 			tableFieldLoads(mm, a, out, seen, depth+1)
 		}
+	case *ssa.Slice:
+		tableFieldLoads(mm, x.X, out, seen, depth+1) // a sub-range of the bucket array
 	}
 }
 
@@ -910,6 +912,8 @@ func fieldSet(mm *core.MapModel, v ssa.Value) map[string]bool {
 			if a := mm.UniqueArg(x); a != nil {
 				walk(a, d+1)
 			}
+		case *ssa.Slice:
+			walk(x.X, d+1)
 		}
 	}
 	walk(v, 0)
